@@ -125,6 +125,8 @@ impl Property for C16 {
     fn check(&self, src: &mut Src, ctx: &mut Ctx) -> Verdict {
         let mut o = TreeOpts::xml(ctx.knobs.max_nodes);
         o.alpha = if src.bool() { Alpha::Brackets } else { Alpha::Full };
+        // explicit xmlns:xml declarations: a namespace node like any other, it has its Prefix event
+        o.xml_prefix_decls = true;
         let doc = match src.weighted(&[4, 3, 2]) {
             0 => gen::gen_document(src, &o),
             1 => gen::gen_element_tree(src, &o),
@@ -506,6 +508,82 @@ impl Property for C16 {
                 .map_err(|e| format!("serialize_xml_write_with_normalizer failed: {}", e))?;
             if w.out != plain.as_bytes() {
                 return Err("serialize_xml_write_with_normalizer(Noop) emits other bytes than serialize_xml_string".into());
+            }
+            // (late draws) a leaf as the subtree: one text, comment or PI node below the start node; every
+            // entry point must produce the same bytes for it (a text below an element of the CDATA list
+            // included) and outputs() exactly one event, tagged with that node
+            let leaves: Vec<Node> = bounded(xot.descendants(start), 100_000, "descendants")?
+                .into_iter()
+                .filter(|n| *n != start && (xot.is_text(*n) || xot.is_comment(*n) || xot.is_processing_instruction(*n)))
+                .collect();
+            if !leaves.is_empty() {
+                let leaf = leaves[src.choice_big(leaves.len())];
+                let under_cdata = xot.parent(leaf).and_then(|p| xot.element(p)).map(|e| cdata.contains(&e.name())).unwrap_or(false);
+                if xot.is_text(leaf) && under_cdata {
+                    ctx.label("text_leaf_below_cdata_element_as_start");
+                }
+                let params = || Parameters { cdata_section_elements: cdata.clone(), unescaped_gt, ..Default::default() };
+                let ls = match guarded(|| xot.serialize_xml_string(params(), leaf)).map_err(|p| format!("serialize_xml_string(leaf) panicked: {}", p))? {
+                    Ok(s) => s,
+                    Err(_) => return Ok(()),
+                };
+                let ltoks = guarded(|| bounded(xot.tokens(leaf, tsp(), NoopNormalizer), 1_000_000, "tokens")).map_err(|p| format!("tokens(leaf) panicked: {}", p))??;
+                let mut cat = String::new();
+                for (_, _, t) in &ltoks {
+                    if t.space {
+                        cat.push(' ');
+                    }
+                    cat.push_str(&t.text);
+                }
+                if cat != ls {
+                    return Err(format!("leaf as subtree: tokens() concatenate to {:?}, serialize_xml_string gives {:?}", cat, ls));
+                }
+                let lptoks = guarded(|| bounded(xot.pretty_tokens(leaf, tsp(), &suppress, NoopNormalizer), 1_000_000, "pretty_tokens")).map_err(|p| format!("pretty_tokens(leaf) panicked: {}", p))??;
+                let lpretty = xot
+                    .serialize_xml_string(Parameters { indentation: Some(Indentation { suppress: suppress.clone() }), ..params() }, leaf)
+                    .map_err(|e| format!("leaf as subtree: indented serialisation fails although the plain one works: {}", e))?;
+                let mut cat = String::new();
+                for (_, _, t) in &lptoks {
+                    for _ in 0..t.indentation {
+                        cat.push_str("  ");
+                    }
+                    if t.space {
+                        cat.push(' ');
+                    }
+                    cat.push_str(&t.text);
+                    if t.newline {
+                        cat.push('\n');
+                    }
+                }
+                if cat != lpretty {
+                    return Err(format!("leaf as subtree: pretty_tokens() assemble to {:?}, the indented string is {:?}", cat, lpretty));
+                }
+                let mut w = Dribble { out: vec![], max: chunk };
+                xot.serialize_xml_write(params(), leaf, &mut w).map_err(|e| format!("serialize_xml_write(leaf) failed: {}", e))?;
+                if w.out != ls.as_bytes() {
+                    return Err(format!("leaf as subtree: serialize_xml_write emits {:?}, serialize_xml_string gives {:?}", String::from_utf8_lossy(&w.out), ls));
+                }
+                let ln = xot.serialize_xml_string_with_normalizer(params(), leaf, NoopNormalizer).map_err(|e| format!("serialize_xml_string_with_normalizer(leaf) failed: {}", e))?;
+                if ln != ls {
+                    return Err(format!("leaf as subtree: serialize_xml_string_with_normalizer gives {:?}, serialize_xml_string {:?}", ln, ls));
+                }
+                let mut w = Dribble { out: vec![], max: chunk };
+                xot.serialize_xml_write_with_normalizer(params(), leaf, &mut w, NoopNormalizer).map_err(|e| format!("serialize_xml_write_with_normalizer(leaf) failed: {}", e))?;
+                if w.out != ls.as_bytes() {
+                    return Err(format!("leaf as subtree: serialize_xml_write_with_normalizer emits {:?}, serialize_xml_string gives {:?}", String::from_utf8_lossy(&w.out), ls));
+                }
+                let louts = guarded(|| bounded(xot.outputs(leaf), 1_000, "outputs")).map_err(|p| format!("outputs(leaf) panicked: {}", p))??;
+                let ok = louts.len() == 1
+                    && louts[0].0 == leaf
+                    && match &louts[0].1 {
+                        Output::Text(t) => xot.text_str(leaf) == Some(*t),
+                        Output::Comment(t) => xot.comment_str(leaf) == Some(*t),
+                        Output::ProcessingInstruction(..) => xot.is_processing_instruction(leaf),
+                        _ => false,
+                    };
+                if !ok {
+                    return Err(format!("leaf as subtree: outputs() gives {} events, expected exactly the one of the leaf, tagged with it", louts.len()));
+                }
             }
             Ok(())
         })();
